@@ -549,7 +549,10 @@ class Plugin:
                 if self.parallel and executor is not None:
                     new_future = executor.submit(self.do_compute, chunk_i=chunk_i, **inputs_merged)
                     pending_futures.append(new_future)
-                    pending_futures = [f for f in pending_futures if not f.done()]
+                    # Keep failed futures: cleanup must know that a computation failed
+                    pending_futures = [
+                        f for f in pending_futures if not f.done() or f.exception() is not None
+                    ]
                     yield new_future
                 else:
                     yield from self._iter_compute(chunk_i=chunk_i, **inputs_merged)
